@@ -309,3 +309,52 @@ func (ex *Exec) subTyped(a, b *Term) *Term {
 	}
 	return ex.tb.Sub(a, b)
 }
+
+// crypto/subtle.xorBytes is assembly on amd64/arm64: documented contract
+// dst[i] = a[i] ^ b[i] for i < n (dst, a, b point at the first elements).
+func init() {
+	intrinsics["crypto/subtle.xorBytes"] = func(ex *Exec, c *callCtx) (Value, bool) {
+		tb := ex.tb
+		dst, a, b := c.args[0].(*Ptr), c.args[1].(*Ptr), c.args[2].(*Ptr)
+		n := c.args[3].(*Term)
+		at := func(p *Ptr, k int64) *Ptr {
+			out := &Ptr{Alts: make([]PtrAlt, len(p.Alts))}
+			for i, al := range p.Alts {
+				np := append([]PathEl(nil), al.Path...)
+				if len(np) == 0 || np[len(np)-1].Idx == nil {
+					panic(ex.unsupported("xorBytes on a pointer that is not an element pointer"))
+				}
+				np[len(np)-1] = PathEl{Field: -1, Idx: ex.iadd(np[len(np)-1].Idx, ex.idxConst(k))}
+				out.Alts[i] = PtrAlt{G: al.G, Obj: al.Obj, Path: np}
+			}
+			return out
+		}
+		saveG := c.st.G
+		for k := int64(0); k < 4096; k++ {
+			in := tb.Restrict(ex.ilt(ex.idxConst(k), n), c.st.ctx)
+			g := tb.And(saveG, in)
+			if g.IsFalse() || !ex.feasible(g) {
+				break
+			}
+			ex.setGuard(c.st, g)
+			x, ok1 := ex.load(c.st, at(a, k), c.pos)
+			y, ok2 := ex.load(c.st, at(b, k), c.pos)
+			if !ok1 || !ok2 {
+				ex.setGuard(c.st, saveG)
+				return nil, false
+			}
+			var r *Term
+			if ex.BV {
+				r = tb.BVBin(OpBVXor, x.(*Term), y.(*Term))
+			} else {
+				r = tb.BV2Nat(tb.BVBin(OpBVXor, tb.Int2BV(x.(*Term), 8), tb.Int2BV(y.(*Term), 8)))
+			}
+			if !ex.store(c.st, at(dst, k), r, c.pos) {
+				ex.setGuard(c.st, saveG)
+				return nil, false
+			}
+		}
+		ex.setGuard(c.st, saveG)
+		return nil, true
+	}
+}
